@@ -16,29 +16,33 @@ open TH
     Content-Type at the position of the first carrying the value of the last. -/
 theorem headers_policy (status : Nat) (hs : List Header) (len : Option Nat) :
     (Resp.new status hs len).headers = Spec.policy hs := by
-  sorry
+  unfold Resp.new
+  simpa using foldl_addHeader_headers hs [] ⟨status, [], len, none⟩ rfl
 
 /-- the same for headers added later to any response whose list already obeys the policy. -/
 theorem headers_policy_append (status : Nat) (hs more : List Header) (len : Option Nat) :
     (more.foldl addHeader (Resp.new status hs len)).headers = Spec.policy (hs ++ more) := by
-  sorry
+  exact foldl_addHeader_headers more hs _ (headers_policy status hs len)
 
 /-- a supplied parsable Content-Length only sets the declared length (the last one wins). -/
 theorem declared_length (status : Nat) (hs : List Header) (len : Option Nat) :
     (Resp.new status hs len).dataLength = Spec.declaredLen len hs := by
-  sorry
+  exact foldl_addHeader_dataLength hs _
 
 /-- no application-supplied Connection / Trailer / Transfer-Encoding / Upgrade / Content-Length
     is ever stored, hence never sent. -/
 theorem protected_never_stored (status : Nat) (hs : List Header) (len : Option Nat) :
     ∀ h ∈ (Resp.new status hs len).headers,
       Spec.isProtectedName h = false ∧ h.is b!"Content-Length" = false := by
-  sorry
+  intro h hm
+  rw [headers_policy] at hm
+  exact (kept_iff h).mp (policy_kept hs h hm)
 
 /-- at most one Content-Type is stored. -/
 theorem content_type_at_most_once (status : Nat) (hs : List Header) (len : Option Nat) :
     Spec.countName (Resp.new status hs len).headers b!"Content-Type" ≤ 1 := by
-  sorry
+  rw [headers_policy]
+  exact countName_policy_ct hs
 
 /-- exactly one Date and exactly one Server in the printed header list when the application
     supplied none; the application's own otherwise (no automatic one is added). -/
@@ -49,14 +53,17 @@ theorem date_server_once (hs : List Header) (date : Bytes) (up : Option Bytes) :
         Spec.countName (insertAuto hs date up) b!"Date" = Spec.countName hs b!"Date") ∧
     (hs.any (·.is b!"Server") = true →
         Spec.countName (insertAuto hs date up) b!"Server" = Spec.countName hs b!"Server") := by
-  sorry
+  cases up <;> cases hD : hs.any (·.is b!"Date") <;> cases hS : hs.any (·.is b!"Server") <;>
+    simp [insertAuto, hD, hS, countName_cons, countName_zero_of_any, date_is_date, date_is_server,
+      server_is_server, server_is_date, conn_is_date, conn_is_server, upg_is_date, upg_is_server]
 
 /-- the printed header list is: the library's leading headers, then exactly the stored
     (policy) headers in order, then the framing header. -/
 theorem printed_headers_shape (r : Resp) (date : Bytes) (up : Option Bytes) (fr : List Header) :
     ∃ lead, insertAuto r.headers date up ++ fr = lead ++ r.headers ++ fr ∧
       ∀ h ∈ lead, h.is b!"Date" ∨ h.is b!"Server" ∨ h.is b!"Connection" ∨ h.is b!"Upgrade" := by
-  sorry
+  refine ⟨autoLead r.headers date up, ?_, autoLead_names r.headers date up⟩
+  rw [insertAuto_eq]
 
 /-- the oracle evaluated by the check accepts the model's own printed header list (so the
     oracle is satisfiable and the model meets it): for every supplied list, upgrade or not. -/
@@ -64,7 +71,23 @@ theorem model_meets_oracle (status : Nat) (hs : List Header) (len : Option Nat) 
     (up : Option Bytes) (te : Option Coding) (l : Option Nat) :
     Spec.c19Holds hs up.isSome
       (insertAuto (Resp.new status hs len).headers date up ++ framingHeader te l) = true := by
-  sorry
+  rw [headers_policy]
+  have hnf := policy_not_framing hs
+  unfold Spec.c19Holds
+  generalize Spec.policy hs = pol at *
+  have hstrip := strip_none pol hnf
+  rcases framingHeader_cases te l with hf | ⟨f, hf, hf1, hf2, hf3⟩
+  · rw [hf]
+    cases up <;> cases hD : pol.any (·.is b!"Date") <;> cases hS : pol.any (·.is b!"Server") <;>
+      simp [insertAuto, hD, hS, countName_cons, countName_zero_of_any,
+        date_is_date, date_is_server, server_is_server, server_is_date, conn_is_date,
+        conn_is_server, upg_is_date, upg_is_server, conn_is_conn, upg_is_upg] <;>
+      exact hstrip
+  · rw [hf]
+    cases up <;> cases hD : pol.any (·.is b!"Date") <;> cases hS : pol.any (·.is b!"Server") <;>
+      simp [insertAuto, hD, hS, hf1, hf2, hf3, countName_cons, countName_append,
+        countName_zero_of_any, date_is_date, date_is_server, server_is_server, server_is_date,
+        conn_is_date, conn_is_server, upg_is_date, upg_is_server, conn_is_conn, upg_is_upg]
 
 /-- the convenience constructors declare exactly the byte length of their data
     (`from_string`: the UTF-8 byte length); `with_data` declares what it is given. -/
@@ -73,7 +96,10 @@ theorem ctor_lengths (s d : Bytes) (st : Nat) (r : Resp) (n : Option Nat) :
     (Resp.fromData d).dataLength = some d.length ∧
     (Resp.empty st).dataLength = some 0 ∧
     (r.withData n).dataLength = n ∧ (r.withData n).headers = r.headers := by
-  sorry
+  refine ⟨?_, ?_, ?_, rfl, rfl⟩
+  · rw [Resp.fromString, declared_length]; rfl
+  · rfl
+  · rfl
 
 example : (Resp.new 200 [⟨b!"content-type", b!"a"⟩, ⟨b!"Connection", b!"close"⟩, ⟨b!"X", b!"1"⟩,
     ⟨b!"Content-Type", b!"b"⟩, ⟨b!"Content-Length", b!"7"⟩] none)
